@@ -75,6 +75,21 @@ func c19Values(bigBody bool) []*env.Rpc {
 			out = append(out, r)
 		}
 	}
+	// envelopes of a newer peer: fields this build does not know (top level and in a
+	// sub-message) are part of what was written and must come out the other end
+	for i, unk := range [][]byte{
+		{0x78, 0x2a},                                  // field 15, varint 42
+		{0xa2, 0x06, 0x03, 'n', 'e', 'w'},             // field 100, bytes "new"
+		{0x78, 0x01, 0xa2, 0x06, 0x00, 0xf8, 0x3f, 0x7f}, // three unknown fields
+	} {
+		r := &env.Rpc{Id: uint64(900 + i), Header: &goatorepo.RequestHeader{Method: "/s/new", Source: "srcnew", Destination: "d"}, Body: &goatorepo.Body{Data: []byte("x")}}
+		r.ProtoReflect().SetUnknown(unk)
+		r2 := proto.Clone(r).(*env.Rpc)
+		r2.Id += 10
+		r2.ProtoReflect().SetUnknown(nil)
+		r2.Header.ProtoReflect().SetUnknown(unk)
+		out = append(out, r, r2)
+	}
 	return out
 }
 
